@@ -61,7 +61,7 @@ static tpt_p reg_tpt(reg *r) { return (r->thr >= PW->n) ? PW->pvt : PW->thr[r->t
 static int on_owner(reg *r) {
 	tpt_p cur = tpt_get_current();
 	if (!cur) return 0;
-	if (r->relaxed) return 0; /* nobody owns a registration on the virtual thread */
+	if (r->relaxed) return (PW->n == 1 && cur == PW->thr[0]); /* a registration on the virtual thread has no owner - unless the pool has a single worker */
 	return cur == reg_tpt(r);
 }
 
